@@ -35,7 +35,7 @@ structure Cfg where
   scopeTypes : List String     -- `if self.type in ("function", "class")`
   newlineType : String         -- `if last_leaf.type == "newline"`
   usesPreviousLeafEnd : Bool   -- `return last_leaf.get_previous_leaf().end_pos` (not `.start_pos`, not the newline's own end)
-deriving Repr
+deriving Repr, DecidableEq
 
 /-- `get_definition_start_position`: `definition.start_pos`, or the name's own start without a definition -/
 def defStart (name : Span) (defn : Option (List Span)) : Option Pos :=
